@@ -216,6 +216,60 @@ def check_case(core, v, level, root_kind, seg, chain, spellings, rec, group_path
         do_reads(gen.rng_for(0, 'r'), root, names[:-1] if len(names) > 1 else names, rec)
         if state(root) != st:
             rec.violation('read-after-write-changed-state', case, {})
+            return
+        # write -> delete -> read -> write again: a proxy that remembered the element it once created must not hand
+        # the deleted one back
+        delattr(root, names[0])
+        after_delete = state(root)
+        if after_delete[0][0] != before[0][0] or after_delete[0][5] != before[0][5]:
+            rec.violation('delete-did-not-restore-the-initial-state', case, {'er7': root.to_er7()[-100:]})
+            return
+        do_reads(gen.rng_for(0, 'r'), root, names, rec)
+        if state(root) != after_delete:
+            rec.violation('read-after-delete-changed-state', case, {'er7': root.to_er7()[-100:]})
+            return
+        cur = root
+        for nm in names[:-1]:
+            cur = getattr(cur, nm)
+        setattr(cur, names[-1], text)
+        er2 = root.to_er7()
+        rec.count('rewrite_after_delete_checks')
+        if er2 != er:
+            rec.violation('rewrite-after-delete-lost-or-misplaced', case, {'first': er[-120:], 'second': er2[-120:]})
+    except Exception as e:
+        rec.violation('raised:%s' % type(e).__name__, case, {'exc': repr(e)[:200]})
+
+
+def check_open_segment(core, v, seg, level, rec, rng):
+    """Z segments and segments whose last field is `varies` accept any field number: reads of lower-numbered fields must
+    not disturb higher ones, writes in any order land at their own index"""
+    rows = tables.segments(v).get(seg)
+    base = rows[-1].num if rows else 0
+    hi = base + rng.randint(3, 9)
+    lo = base + rng.randint(1, 2)
+    case = {'kind': 'open-segment', 'version': v, 'segment': seg, 'level': level, 'hi': hi, 'lo': lo}
+    rec.evaluation(('open', v, seg, level, hi, lo))
+    try:
+        s = core.Segment(seg, version=v, validation_level=level)
+        setattr(s, '%s_%d' % (seg.lower(), hi), 'five')
+        before = state(s)
+        for rep in range(2):
+            p = getattr(s, '%s_%d' % (seg.lower(), lo))
+            len(p), repr(p), list(p)
+            getattr(p, 'value')
+            getattr(p, 'datatype')
+            s.to_er7()
+        rec.count('read_purity_comparisons')
+        if state(s) != before:
+            rec.violation('read-changed-encoding', case, {'before': before[0][0], 'after': s.to_er7()})
+            return
+        setattr(s, '%s_%d' % (seg.lower(), lo), 'two')
+        name, fields = er7ref.tokenize_segment(s.to_er7(), er7ref.STD)
+        lv = er7ref.leaves(fields)
+        if lv != [((lo, 1, 1, 1), 'two'), ((hi, 1, 1, 1), 'five')]:
+            rec.violation('written-value-misplaced', case, {'encoded': s.to_er7()})
+            return
+        rec.count('open_segment_checks')
     except Exception as e:
         rec.violation('raised:%s' % type(e).__name__, case, {'exc': repr(e)[:200]})
 
@@ -281,6 +335,11 @@ def run_shard(spec, rec):
             if i < 1:
                 rec.sample({'version': v, 'root': spec['root'], 'segment': seg, 'group_path': list(gp),
                             'spellings': spellings})
+        if spec['root'] == 'segment':
+            for seg in c02.open_ended_segments(v):
+                for level in (1, 2):
+                    for _ in range(3):
+                        check_open_segment(core, v, seg, level, rec, rng)
     finally:
         core.ElementList.create_element = orig
     rec.count('shadow_or_real_elements_created', created[0])
@@ -290,6 +349,10 @@ def run_shard(spec, rec):
 def replay(case, rec):
     from hl7apy import core
     v = case['version']
+    if case.get('kind') == 'open-segment':
+        for k in range(20):
+            check_open_segment(core, v, case['segment'], case['level'], rec, gen.rng_for(k, 'replay'))
+        return
     rows = {r.name: r for r in tables.segments(v)[case['segment']]}
     chain = []
     f = rows[case['chain'][0]]
